@@ -188,7 +188,7 @@ func getFieldValueByNameFromStruct(identName string, structValue reflect.Value) 
 		for _, e := range structValue.MapKeys() {
 			mks, ok := e.Interface().(string)
 			if !ok {
-				if reflect.TypeOf(e.Interface()).ConvertibleTo(reflect.TypeOf("")) {
+				if e.Interface() != nil && reflect.TypeOf(e.Interface()).ConvertibleTo(reflect.TypeOf("")) {
 					mksTemp := reflect.ValueOf(e.Interface()).Convert(reflect.TypeOf("")).Interface()
 					mks, ok = mksTemp.(string)
 					if !ok || mks == "" {
@@ -245,7 +245,7 @@ func doForMapPerKey(valueThatShouldBeMap any, doFunc func(keyAsString string, ke
 		for _, e := range v.MapKeys() {
 			mks, ok := e.Interface().(string)
 			if !ok {
-				if reflect.TypeOf(e.Interface()).ConvertibleTo(reflect.TypeOf("")) {
+				if e.Interface() != nil && reflect.TypeOf(e.Interface()).ConvertibleTo(reflect.TypeOf("")) {
 					mksTemp := reflect.ValueOf(e.Interface()).Convert(reflect.TypeOf("")).Interface()
 					mks, ok = mksTemp.(string)
 					if !ok || mks == "" {
